@@ -108,6 +108,8 @@ fn main() {
             // judges every declared / undeclared access on the default schedules of both base orders
             for main_last in [false, true] {
                 plans.push(Plan { src: idx("K1"), k: big, main_last, dmax: 0 });
+                // 289 kerning adjustments: two KernFragment jobs are created at run time
+                plans.push(Plan { src: idx("M1"), k: big, main_last, dmax: 0 });
             }
         }
         Tier::Thorough => {
@@ -115,7 +117,7 @@ fn main() {
                 let dmax = match fam[src].name {
                     // two demotions on the two sources that between them exercise every dynamic rule
                     "J0" | "J1" => 2,
-                    "J2" | "J3" | "J5" | "K1" => 1,
+                    "J2" | "J3" | "J5" | "K1" | "M1" => 1,
                     // the biggest sources: the default schedules of both base orders (every access pair is judged by the
                     // happens-before monitor there)
                     _ => 0,
@@ -264,7 +266,8 @@ fn main() {
                 for race in &x.races {
                     rep.violation(&format!("race:{}:{}", src.name, race), &format!("unordered conflicting accesses on a schedule that follows a model trace: {race}"), mk());
                 }
-                if !x.protocol_errors.is_empty() {
+                // (on a failing run tasks legitimately stop early: judged only when the run succeeded)
+                if !x.protocol_errors.is_empty() && x.outcome.as_deref().is_some_and(|o| o.starts_with("ok:")) {
                     vcore::machinery_error(&format!("worker protocol drift on a guided execution: {:?}", x.protocol_errors.first()));
                 }
                 if let Some(e) = &x.conform_error {
